@@ -6,7 +6,7 @@
    (M, N); bases B_r (M x a) and B_c (N x c) (eigenvectors or B-splines; a <> c and M <> N allowed);
    [cf] is the index-level configuration translated from the current source (gen/GenC20.v). *)
 From Coq Require Import ZArith List Bool Ring.
-From PB Require Import C20.Model C20.Proofs C20.Layout gen.GenC20 C20.GenOk.
+From PB Require Import C20.Model C20.Proofs C20.Layout C20.Reductions gen.GenC20 C20.GenOk.
 Import ListNotations.
 Open Scope Z_scope.
 
@@ -42,6 +42,28 @@ Theorem C20_ravel_reshape_roundtrip : forall (R : ops) (N : Z) (A : mat R) (i j 
   0 <= j < N -> reshape2 R N (ravel2 R N A) i j = A i j.
 Proof. exact ravel_reshape_roundtrip. Qed.
 Print Assumptions C20_ravel_reshape_roundtrip.
+
+(* Host-level scalars.  On the direct branch y / weights / residuals are 1-D, on the eigendecomposition branch
+   they are (M, N); the stop rules and normalisations of the eigen-capable hosts (and of the _weighting helpers
+   and relative_difference they call) must not depend on that.  Every reduction in those bodies, translated
+   and classified on this run, is an axis=None / Frobenius / .size form (or acts on a boolean-mask selection) ... *)
+Theorem C20_source_reductions : forallb red_ok gen_reductions = true /\ gen_reductions <> nil.
+Proof. exact gen_reductions_ok. Qed.
+Print Assumptions C20_source_reductions.
+
+(* ... such forms agree on the two shapes (sum over the row-major flattening = double sum) ... *)
+Theorem C20_sum_2d_is_sum_flat : forall (R : ops),
+  semi_ring_theory (t0 R) (t1 R) (tadd R) (tmul R) (@eq (T R)) ->
+  forall (M N : nat) (A : mat R),
+  sumf R (M * N) (ravel2 R (Z.of_nat N) A) = sumf R M (fun i => sumf R N (fun j => A i j)).
+Proof. exact sum_2d_is_sum_flat. Qed.
+Print Assumptions C20_sum_2d_is_sum_flat.
+
+(* ... whereas an ndim-dependent form does not: np.linalg.norm(., 1) is sum|v| in 1-D, max column sum in 2-D. *)
+Theorem C20_norm1_depends_on_ndim_refuted :
+  exists (M N : nat) (A : mat ZO), mat_norm1 M N A <> vec_norm1 (M * N) (ravel2 ZO (Z.of_nat N) A).
+Proof. exact norm1_depends_on_ndim. Qed.
+Print Assumptions C20_norm1_depends_on_ndim_refuted.
 
 (* _make_btwb (face-splitting products, G_r' W G_c, reshape -> transpose [0,2,1,3] -> reshape as
    div/mod maps on C-order raveled data):
